@@ -44,6 +44,10 @@ func ddlVariant(st sq.State, variant string) ([]string, bool) {
 	if variant == "plain" {
 		return sq.DDL(st), false
 	}
+	if variant == "exprindex" {
+		// an index whose second key part is an expression, written compactly (no blank after the comma)
+		return append(sq.DDL(st), "CREATE INDEX zx ON t1(a,(a+1))"), false
+	}
 	// rewrite: take the plain DDL and move eligible unique indexes into the CREATE TABLE
 	inline := map[string][]string{}
 	rest := sq.State{}
@@ -116,6 +120,24 @@ func normInline(st sq.State, on bool) sq.State {
 	return sq.Canon(out)
 }
 
+func dropIdx(st sq.State, name string) sq.State {
+	out := sq.State{}
+	for n, t := range st {
+		var idx []sq.Idx
+		for _, x := range t.Idx {
+			if x.Name != name {
+				idx = append(idx, x)
+			}
+		}
+		if idx == nil {
+			idx = []sq.Idx{}
+		}
+		t.Idx = idx
+		out[n] = t
+	}
+	return out
+}
+
 func openDB(path string) (*sql.DB, error) {
 	db, err := sql.Open("sqlite3", "file:"+path+"?_fk=1")
 	if err != nil {
@@ -170,7 +192,7 @@ func exportOne(id int, st sq.State, variant, dir string) (o exportObs) {
 		return
 	}
 	o.Orig = normInline(orig, inl)
-	if !equalState(normInline(orig, inl), normInline(st, inl)) {
+	if !equalState(normInline(dropIdx(orig, "zx"), inl), normInline(st, inl)) {
 		o.Skipped = "projection of the start state differs from the model state (harness inconsistency)"
 		return
 	}
@@ -296,6 +318,9 @@ func exportMode(pairsFile, out string, workers int) {
 			jobs = append(jobs, job{st, "plain"})
 			if _, inl := ddlVariant(st, "inline"); inl {
 				jobs = append(jobs, job{st, "inline"})
+			}
+			if t1 := st["t1"]; t1.Present() && t1.Cols["a"].Type == "INT" && t1.Cols["a"].Gen == "" && len(jobs)%7 == 0 {
+				jobs = append(jobs, job{st, "exprindex"})
 			}
 		}
 	}
